@@ -907,8 +907,17 @@ class Interp:
             self.block(s.orelse, frame)
 
     def s_While(self, s, frame):
-        n = 0
-        while self.truth(self.expr(s.test, frame)):
+        n = nsym = 0
+        while True:
+            test = self.expr(s.test, frame)
+            if is_sym(test):
+                # a loop whose condition depends on symbolic values is unrolled a few times only: without a loop
+                # contract every further iteration is another path, and there is no end to them
+                nsym += 1
+                if nsym > 6:
+                    raise Inapplicable("while loop with a symbolic condition and no loop contract")
+            if not self.truth(test):
+                break
             n += 1
             if n > 10000:
                 raise Inapplicable("while loop bound")
